@@ -121,6 +121,43 @@ pub assume_specification [core::cmp::Ordering::is_lt] (o: core::cmp::Ordering) -
 pub assume_specification [core::cmp::Ordering::is_le] (o: core::cmp::Ordering) -> (r: bool) ensures r == (o != core::cmp::Ordering::Greater);
 pub assume_specification [core::cmp::Ordering::is_gt] (o: core::cmp::Ordering) -> (r: bool) ensures r == (o == core::cmp::Ordering::Greater);
 pub assume_specification [core::cmp::Ordering::is_ge] (o: core::cmp::Ordering) -> (r: bool) ensures r == (o != core::cmp::Ordering::Less);
+pub uninterp spec fn fconst_EPSILON() -> f64;
+#[verifier::external_body]
+pub fn __f64_EPSILON() -> (r: f64) ensures r == fconst_EPSILON() { f64::EPSILON }
+pub uninterp spec fn fconst_MAX() -> f64;
+#[verifier::external_body]
+pub fn __f64_MAX() -> (r: f64) ensures r == fconst_MAX() { f64::MAX }
+pub uninterp spec fn fconst_MIN() -> f64;
+#[verifier::external_body]
+pub fn __f64_MIN() -> (r: f64) ensures r == fconst_MIN() { f64::MIN }
+pub uninterp spec fn fconst_MIN_POSITIVE() -> f64;
+#[verifier::external_body]
+pub fn __f64_MIN_POSITIVE() -> (r: f64) ensures r == fconst_MIN_POSITIVE() { f64::MIN_POSITIVE }
+pub uninterp spec fn fconst_NAN() -> f64;
+#[verifier::external_body]
+pub fn __f64_NAN() -> (r: f64) ensures r == fconst_NAN() { f64::NAN }
+
+// R12: integer-to-float casts (`X as f64`), which this Verus rejects; the wrapper IS the cast.
+pub uninterp spec fn u64_to_f64(n: u64) -> f64;
+pub uninterp spec fn usize_to_f64(n: usize) -> f64;
+pub trait ToF64: Sized {
+    spec fn to_f64_spec(self) -> f64;
+    fn __to_f64(self) -> (r: f64) ensures r == self.to_f64_spec();
+}
+impl ToF64 for u64 {
+    open spec fn to_f64_spec(self) -> f64 { u64_to_f64(self) }
+    #[verifier::external_body]
+    fn __to_f64(self) -> (r: f64) { self as f64 }
+}
+impl ToF64 for usize {
+    open spec fn to_f64_spec(self) -> f64 { usize_to_f64(self) }
+    #[verifier::external_body]
+    fn __to_f64(self) -> (r: f64) { self as f64 }
+}
+pub fn __as_f64<T: ToF64>(x: T) -> (r: f64) ensures r == x.to_f64_spec() { x.__to_f64() }
+
+// R13: identity on f64 (see rule R13 of the extractor)
+pub fn __idf(x: f64) -> (r: f64) ensures r == x { x }
 
 // ---- prelude fragment: ideal.rs ----
 // Floating point, layer 2 ("idealised real" mode of DESIGN.md 3.2): machine arithmetic treated as
@@ -136,11 +173,17 @@ pub broadcast axiom fn ax_rv_cmp(a: f64, b: f64)
     ensures #[trigger] fcmp(a, b) == (if rv(a) < rv(b) { Some(core::cmp::Ordering::Less) }
         else if rv(a) == rv(b) { Some(core::cmp::Ordering::Equal) } else { Some(core::cmp::Ordering::Greater) });
 pub broadcast axiom fn ax_rv_eq(a: f64, b: f64) ensures #[trigger] feq(a, b) == (rv(a) == rv(b));
+pub broadcast axiom fn ax_rv_max(a: f64, b: f64) ensures rv(#[trigger] fmaxf(a, b)) == (if rv(a) >= rv(b) { rv(a) } else { rv(b) });
+pub broadcast axiom fn ax_rv_min(a: f64, b: f64) ensures rv(#[trigger] fminf(a, b)) == (if rv(a) <= rv(b) { rv(a) } else { rv(b) });
 pub axiom fn ax_rv_lits()
     ensures rv(0.0f64) == 0real, rv(1.0f64) == 1real, rv(2.0f64) == 2real, rv(0.5f64) * 2real == 1real;
 pub broadcast group ideal {
-    ax_rv_add, ax_rv_sub, ax_rv_mul, ax_rv_div, ax_rv_neg, ax_rv_cmp, ax_rv_eq
+    ax_rv_add, ax_rv_sub, ax_rv_mul, ax_rv_div, ax_rv_neg, ax_rv_cmp, ax_rv_eq, ax_rv_max, ax_rv_min
 }
+// (idealised) integer-to-float casts are exact
+pub broadcast axiom fn ax_rv_u64(n: u64) ensures rv(#[trigger] u64_to_f64(n)) == n as real;
+pub broadcast axiom fn ax_rv_usize(n: usize) ensures rv(#[trigger] usize_to_f64(n)) == n as real;
+pub broadcast group ideal_casts { ax_rv_u64, ax_rv_usize }
 
 // ---- prelude fragment: std_ext.rs ----
 // R5: assumed contracts on std items that vstd does not specify (each is listed in the evidence).
